@@ -5,6 +5,7 @@ import WS.Spec.Rfc6455
 import WS.Model.Utf8
 import WS.Model.Frame
 import WS.Model.Conn
+import WS.Model.Threads
 namespace WS.Driver.Core
 open WS WS.Driver WS.Model
 
@@ -200,6 +201,16 @@ def ops : List String → Option String
     match Model.validate { fin := fin, rsv1 := r1, rsv2 := r2, rsv3 := r3, opcode := op, mask := 0, data := p } (skip == "1") with
     | none => some "ok"
     | some e => some (exnOut e)
+  | ["m-threads-send", frames, sched, acc] => do
+    let fr ← (frames.splitOn ".").mapM parseBytes
+    let sc ← if sched == "-" then some [] else (sched.splitOn ".").mapM String.toNat?
+    let ac ← if acc == "-" then some [] else (acc.splitOn ".").mapM String.toNat?
+    let framesF : Nat → Bytes := fun i => fr.getD i []
+    let accF : Nat → Nat := fun k => if ac.isEmpty then 1000000000 else ac.getD (k % ac.length) 1
+    let st := Model.Threads.run Gen.sendLoopUnderLock framesF accF (Model.Threads.init framesF) sc
+    let pcs := (List.range fr.length).map fun i => match st.pc i with
+      | .start => "s" | .writing _ => "w" | .done => "d"
+    some (s!"{summarize st.wire}|{String.intercalate "." (st.order.map toString)}|{String.intercalate "" pcs}")
   | ["m-close-code", n] => n.toNat?.map (fun n => b2s (Model.isValidCloseStatus n))
   | ["s-close-code", n] => n.toNat?.map (fun n => b2s (Spec.wireCode n))
   | ["s-decode", w] => (parseBytes w).map (fun w => wireOut (Spec.decode w))
